@@ -587,7 +587,7 @@ fn open_redb(path: &Path) -> Result<RedbKVVStore, String> {
     report::catch(|| RedbKVVStore::new(path))
 }
 
-/// returns false when a harness problem ended the history
+/// one history: fresh stores, `steps` operations, stops at the first divergence
 fn lockstep_history(rng: &mut Rng, r: &mut Report, base: &Path, seed: u64, shard: usize, h: u64, steps: u64) {
     let path: PathBuf = base.join(format!("h{}", h));
     let mem = MemoryKVVStore::new([1u8; 16]);
@@ -1274,8 +1274,8 @@ fn main() {
     let quick = cli.tier.is_quick();
     let shards = if quick { 16 } else { 64 };
     // per shard
-    let (ls_h, ls_steps) = if quick { (20, 110) } else { (100, 150) };
-    let (cl_h, cl_txs) = if quick { (150, 12) } else { (800, 20) };
+    let (ls_h, ls_steps) = if quick { (20, 110) } else { (40, 150) };
+    let (cl_h, cl_txs) = if quick { (150, 12) } else { (500, 20) };
 
     let mut report = run_sharded("C16", cli.threads, shards, |i, r| {
         let mut rng = Rng::new(cli.seed.wrapping_mul(1_000_003).wrapping_add(i as u64));
